@@ -814,7 +814,7 @@ def run(tier):
                 jid += 1
                 jobs.append((f"nf-{jid}", transport, mps, [("kp_read_key_store", 0)], None, None, True))
             # multi-call histories
-            for _ in range(12 if tier == "quick" else 600):
+            for _ in range(12 if tier == "quick" else 3000):
                 k = r.randrange(2, 5)
                 calls = []
                 for _ in range(k):
@@ -871,7 +871,7 @@ def run(tier):
                         jid += 1
                         jobs.append((f"f-{jid}", transport, mps, [("generate_key_blob", r.choice([16, mps + 1]))], (at, kind, pos), None, True))
     # benign not-ready bytes, and faults in the second call of a history
-    for _ in range(20 if tier == "quick" else 1500):
+    for _ in range(20 if tier == "quick" else 6000):
         mps = r.choice(mps_menu)
         jid += 1
         jobs.append((f"b-{jid}", "serial", mps, [("read_memory", 2 * mps + 1)], (r.randrange(0, 5), "notready", (0, 0)), None, True))
